@@ -46,6 +46,11 @@ func main() {
 	switch cmd {
 	case "check":
 		os.Exit(runCheck(*repo, *prop, *tier))
+	case "replay":
+		if len(pos) < 1 {
+			usage()
+		}
+		os.Exit(runReplayCmd(*repo, pos[0]))
 	case "func", "lemma":
 		if len(pos) < 1 {
 			usage()
